@@ -194,6 +194,20 @@ def r192(repo, ctx, index):
                 guarded = True
         if not guarded:
             unguarded.append(o)
+    if n_interp > 0 and unguarded:
+        # the test at the previous step may be written out (helper inlined): a comparison of the PREVIOUS polled value with the
+        # threshold somewhere in the function.  Which paths it guards is then not read off the path conditions: undecided, not a violation
+        def prev_value(e, depth=0):
+            if isinstance(e, ast.Name) and len(alldefs.get(e.id, [])) == 1 and depth < 4:
+                return prev_value(alldefs[e.id][0], depth + 1)
+            return isinstance(e, ast.Call) and U.call_name(e) == 'self._poll' and len(e.args) == 2 and idx_kind(e.args[1]) == 'prev'
+        written_out = any(isinstance(c_, ast.Compare) and len(c_.ops) == 1 and (
+            (prev_value(c_.left) and U.chain(c_.comparators[0]) == ('self', '_value')) or (prev_value(c_.comparators[0]) and U.chain(c_.left) == ('self', '_value')))
+            for c_ in ast.walk(f))
+        if written_out:
+            ctx.undecided('R19.7', SC, f'{BASECLS}.testCondition', st[0] if st else f, 'the previous polled value is compared with the threshold inside testCondition (not through _testCondition(model, n-1)): '
+                          'which stores of the interpolated time that comparison guards is not decided')
+            unguarded = []
     ctx.check(n_interp > 0 and not unguarded, 'R19.7', SC, f'{BASECLS}.testCondition', st[0] if st else f,
               f'on all {n_interp} path(s) that store the interpolated time the condition was tested at the previous step and was not met there: the threshold lies between the two values',
               'the interpolated time is stored without testing that the condition was not yet met at the previous step: when it already was (true at the initial state, registered mid-run) '
